@@ -321,7 +321,7 @@ Proof.
     + intro. destruct b; [apply sim_with_scope; apply Hts|apply sim_ret].
   - (* TLoop *)
     apply sim_bind; [apply sim_eval_i64|intros n]. destruct n; [|apply sim_ret].
-    apply sim_loop_iterations. intro i. apply sim_with_scope.
+    destruct (loop_iteration_limit <? z)%Z; [apply sim_abort|]. apply sim_loop_iterations. intro i. apply sim_with_scope.
     apply sim_get_bind; intros c c' H. rewrite (symbol_core _ _ _ _ _ H). sm. apply Hts.
   - (* TMacroDef *) apply sim_get_bind; intros c c' H. rewrite (symbol_core _ _ _ _ _ H). sm.
   - (* TInvoke *)
